@@ -533,6 +533,12 @@ func (s *JavaFullListener) EnterCreator(ctx *parser.CreatorContext) {
 }
 
 func (s *JavaFullListener) ExitCreator(ctx *parser.CreatorContext) {
+	// only an anonymous class opens a creator scope: a plain `new Foo()` written inside the
+	// methods of an anonymous class must not close the scope of that class
+	if rest, ok := ctx.ClassCreatorRest().(*parser.ClassCreatorRestContext); !ok || rest.ClassBody() == nil {
+		return
+	}
+
 	if currentCreatorNode.NodeName != "" {
 		method := methodMap[getMethodMapName(currentMethod)]
 		method.InnerStructures = append(method.InnerStructures, currentCreatorNode)
